@@ -157,6 +157,12 @@ def run_stream(drv, stats, seed, n_tri, n_tet, size, failures, name="fem corresp
                                              case_dict("tri", c["v"], c["t"], lump=lump, dt=dt, name=c["name"], pres=c.get("pres"))))
                 if len(failures) > 5:
                     return
+    for c in gen.big_cases(seed, thorough=(size != "small")):
+        for lump in (False, True):
+            err = compare_fem(drv, "tri", c["v"], c["t"], lump, "f64", "i64")
+            stats.case(core.mesh_key(c["v"], c["t"], lump, "big"), cls=["tri:" + c["name"], "lump:%s" % lump])
+            if err:
+                failures.append(core.Failure("correspondence", name, "tri %s lump=%s: %s" % (c["name"], lump, err), case_dict("tri", c["v"], c["t"], lump=lump, dt="f64", name=c["name"])))
     rs = gen.rng_for(seed, "sliver")
     for h in (1e-5, 1e-7, 10.0 ** rs.uniform(-7.5, -4)):          # flat triangles in generic position (float64 only)
         v, t = gen.sliver(rs, h)
